@@ -650,7 +650,13 @@ func vfC13TCPMux(e *vfEnv, r *vfResult, idx int) {
 		go func() { _, _, err := hs[first].ReadFrom(make([]byte, 1500)); pending <- err }()
 		time.Sleep(100 * time.Microsecond)
 	}
+	candidateStyle := rng.IntN(2) == 0
 	for k, i := range order {
+		if candidateStyle {
+			// the way a candidate lets go of its connection: a deadline in the past (to unblock its own I/O), then Close
+			_ = hs[i].SetDeadline(time.Now())
+			r.count("c13_tcpmux_handles_closed_after_setdeadline_now", 1)
+		}
 		_ = hs[i].Close()
 		if k == 0 && probe {
 			select {
@@ -676,7 +682,15 @@ func vfC13TCPMux(e *vfEnv, r *vfResult, idx int) {
 				m, from, rerr := sib.ReadFrom(buf)
 				if rerr != nil || string(buf[:m]) != "\x90to-sibling" {
 					r.violation("sibling-unusable-after-handle-close:tcpmux", fmt.Sprintf("history %d: after one of %d handles was closed a sibling's read gave n=%d err=%v", idx, n, m, rerr), map[string]any{"idx": idx})
-				} else if _, werr := sib.WriteTo([]byte("\x90back"), from); werr != nil {
+				} else if _, werr := func() (int, error) {
+					if candidateStyle {
+						// write deadlines of a shared connection are whatever the last caller set (the closed handle left
+						// one in the past): a user that wants to write arms its own
+						_ = sib.SetWriteDeadline(time.Time{})
+					}
+
+					return sib.WriteTo([]byte("\x90back"), from)
+				}(); werr != nil {
 					r.violation("sibling-unusable-after-handle-close:tcpmux", fmt.Sprintf("history %d: after one of %d handles was closed a sibling's write failed: %v", idx, n, werr), map[string]any{"idx": idx})
 				}
 				_ = sib.SetReadDeadline(time.Time{})
